@@ -1,7 +1,10 @@
 package checks
 
 import (
+	"encoding/json"
 	"fmt"
+	"os"
+	"strings"
 	"sync/atomic"
 
 	"verif/internal/core"
@@ -57,4 +60,139 @@ func faultPhase(env *core.Env, check string, pre core.Store, cmds []crashCmd) ma
 	})
 	return map[string]interface{}{"errors_injected": injected, "command_still_exited_0": acked, "command_failed": rejected, "not_landed": notLanded,
 		"rule": "ENOSPC injected (strace) into each store-mutating system call of each command, one at a time; asserted: exit 0 => observable state equals the uninterrupted run's"}
+}
+
+func init() { replayers["io-error"] = replayIOError }
+
+// ioErrReplay is the artefact of an I/O-error violation: the store, the command and the strace injection.
+type ioErrReplay struct {
+	Kind   string            `json:"kind"` // "io-error"
+	Expect string            `json:"expect"`
+	Store  map[string][]byte `json:"store"`
+	Req    core.Req          `json:"req"`
+	Call   string            `json:"call"`
+	Inject string            `json:"inject"`
+}
+
+// failUnchangedPhase injects an I/O error (EIO) into every traced system call on a store file of each command -
+// open, flock, write, fsync, close, rename - one at a time, on the production binary, and asserts the statement
+// of C10 for the environment-caused failures: if the command exits non-zero, a reader sees exactly the state
+// from before the command. Not asserted: calls after the rename of a rewrite (the directory sync): there the
+// new log is already in place and a failing sync must be reported although the change is visible.
+func failUnchangedPhase(env *core.Env, check string, pre core.Store, cmds []crashCmd) map[string]interface{} {
+	var injected, failed, failedUnchanged, acked, postCommit int64
+	byCall := newCounter()
+	w0 := env.W0()
+	pre.Materialize(w0.Proj)
+	preObs := core.ObserveW(w0, w0.Proj)
+	if preObs.Fail != "" {
+		env.HarnessError("fault phase pre-state unreadable: %s", preObs.Fail)
+	}
+	preNorm := preObs.Norm(preObs.TitleMap())
+	env.Parallel(len(cmds), func(w *core.Worker, i int) {
+		if !env.TimeLeft() {
+			return
+		}
+		c := cmds[i]
+		root, scratch := crashWorkdir(w)
+		pre.Materialize(root)
+		ref, err := crash.Run(env.Prod, root, c.Req, "", scratch)
+		if err != nil {
+			env.HarnessError("strace pass 0: %v", err)
+		}
+		if ref.Exit != 0 {
+			env.HarnessError("fault phase: reference run of %s fails: %s", c.Req.Shell(), ref.Err)
+		}
+		committed := false
+		for _, call := range ref.Calls {
+			if committed {
+				atomic.AddInt64(&postCommit, 1)
+				continue
+			}
+			if strings.HasPrefix(call.Name, "rename") && call.Ret == 0 {
+				committed = true // the rename itself is still injected below
+			}
+			if call.Ret < 0 {
+				continue // fails in the reference run already (e.g. probing for a file that does not exist)
+			}
+			inject := fmt.Sprintf("%s:error=EIO:when=%d", call.Name, call.NthOfName)
+			pre.Materialize(root)
+			t, err := crash.Run(env.Prod, root, c.Req, inject, scratch)
+			if err != nil {
+				env.HarnessError("strace: %v", err)
+			}
+			atomic.AddInt64(&injected, 1)
+			byCall.inc(call.Name)
+			if t.Exit == 0 {
+				atomic.AddInt64(&acked, 1)
+				continue
+			}
+			atomic.AddInt64(&failed, 1)
+			obs := core.ObserveW(w, root)
+			if obs.Fail == "" && obs.Norm(obs.TitleMap()) == preNorm {
+				atomic.AddInt64(&failedUnchanged, 1)
+				continue
+			}
+			sig := fmt.Sprintf("%s kind=failed-under-io-error-but-changed-the-store %s call=%s", check, familyOf(c.Req), call.Name)
+			if os.Getenv("VERIF_DEBUG") != "" {
+				fmt.Printf("debug: %s inject=%s call=%s exit=%d err=%s\n", c.Name, inject, call, t.Exit, clipS(string(t.Err), 100))
+			}
+			if env.ViolationSeen(sig) {
+				continue
+			}
+			art := ioErrReplay{Kind: "io-error", Expect: "fail-unchanged", Store: pre, Req: c.Req, Call: call.String(), Inject: inject}
+			if !confirmIOError(env, art, root, scratch) {
+				unconfirmed.Add(1)
+				continue
+			}
+			env.Violation(sig, fmt.Sprintf("`%s` with EIO injected into %s exits %d (%s), but the store is not what it was before (reads: %q)", c.Req.Shell(), call, t.Exit, clipS(string(t.Err), 120), obs.Fail), art)
+		}
+	})
+	return map[string]interface{}{"errors_injected": injected, "command_failed": failed, "failed_and_unchanged": failedUnchanged, "command_still_exited_0": acked,
+		"post_commit_calls_not_injected": postCommit, "injected_by_call": byCall.snapshot(),
+		"rule": "EIO injected (strace) into each system call on a store file (open, flock, write, fsync, close, rename) of each command, one at a time, up to and including the rename of a rewrite; asserted: exit non-zero => observable state equals the pre-state"}
+}
+
+// confirmIOError re-runs the injection and evaluates the artefact's expectation; true = the violation reproduces.
+func confirmIOError(env *core.Env, a ioErrReplay, root, scratch string) bool {
+	pre := core.Store(a.Store)
+	for i := 0; i < 5; i++ {
+		if !ioErrorOnce(env, a, pre, root, scratch) {
+			return false
+		}
+	}
+	return true
+}
+
+func ioErrorOnce(env *core.Env, a ioErrReplay, pre core.Store, root, scratch string) bool {
+	pre.Materialize(root)
+	before := core.Observe(core.Spawn{Bin: env.Prod}.Run, root)
+	pre.Materialize(root)
+	t, err := crash.Run(env.Prod, root, a.Req, a.Inject, scratch)
+	if err != nil {
+		env.HarnessError("strace: %v", err)
+	}
+	after := core.Observe(core.Spawn{Bin: env.Prod}.Run, root)
+	switch a.Expect {
+	case "fail-unchanged":
+		return t.Exit != 0 && (after.Fail != "" || after.Norm(after.TitleMap()) != before.Norm(before.TitleMap()))
+	default: // acknowledged => in effect
+		pre.Materialize(root)
+		ref, err := crash.Run(env.Prod, root, a.Req, "", scratch)
+		if err != nil || ref.Exit != 0 {
+			return false
+		}
+		want := core.Observe(core.Spawn{Bin: env.Prod}.Run, root)
+		return t.Exit == 0 && (after.Fail != "" || after.Norm(after.TitleMap()) != want.Norm(want.TitleMap()))
+	}
+}
+
+func replayIOError(env *core.Env, raw json.RawMessage) bool {
+	var a ioErrReplay
+	if err := json.Unmarshal(raw, &a); err != nil {
+		env.HarnessError("bad io-error replay: %v", err)
+	}
+	root, scratch := crashWorkdir(env.W0())
+	fmt.Printf("  store + `%s` with strace -e inject=%s (call in the recorded run: %s)\n", a.Req.Shell(), a.Inject, a.Call)
+	return confirmIOError(env, a, root, scratch)
 }
